@@ -180,6 +180,8 @@ def compare_status(
     """
     if cache_odb is None:
         cache_odb = src
+    # NOTE: iterated more than once below, might be a one-shot iterable
+    obj_ids = list(obj_ids)
     dest_exists, dest_missing = status(
         dest,
         obj_ids,
